@@ -232,6 +232,9 @@ M = [
     ("C06", "handleless-region-tracked", P + "proxy/lludp_proxy.py",
      "            if region.handle is not None:\n                self.session.objects.track_region_objects(region.handle)",
      "            self.session.objects.track_region_objects(region.handle)"),
+    ("C18", "set-filter-not-exception-safe", P + "proxy/message_logger.py",
+     "            m not in self._raw_entries and self._filter_matches(m)\n        ]\n        self._filtered_entries.extend((m for m in self._raw_entries if self._filter_matches(m)))",
+     "            m not in self._raw_entries and self.filter.match(m)\n        ]\n        self._filtered_entries.extend((m for m in self._raw_entries if self.filter.match(m)))"),
     # ---- C20 ----
     ("C20", "transfer-done-on-done-packet", P + "base/transfer_manager.py",
      "        if not transfer.done() and len(transfer.chunks) == transfer.expected_chunks:",
